@@ -233,6 +233,7 @@ def project(events, run_index=0):
         incr=oi("search_mesh_increment"), stalliters=oi("tol_stall_iters"),
         k0=oi("init_mesh_size_integer"), pow2=(pmm == 2.0),
         funevalstart=oi("fun_eval_start"), minrefit=oi("min_refit_time"),
+        sloppy=bool(opts.get("sloppy_improvement", True)),
     )
     ev("Construct", outcome="ok", ncalls=cons_ev["ncalls"], consviol=cviol, cfg=cfg,
        lbI=[RU[i](lbI[i]) for i in range(D)], ubI=[RU[i](ubI[i]) for i in range(D)])
@@ -515,7 +516,8 @@ def project(events, run_index=0):
                minok=e["prob_min_ok"], finite=e["prob_finite"], chosen=e["chosen"])
         elif t == "FitAttempt":
             ev("FitAttempt", idx=e["idx"], ctx=e["ctx"], lenX=e["lenX"], lenY=e["lenY"],
-               lenS2=e["lenS2"], injected=e["injected"], outcome=e["outcome"])
+               lenS2=e["lenS2"], injected=e["injected"], outcome=e["outcome"],
+               rfit=e.get("rfit", -1), rtry=e.get("rtry", -1))
         elif t == "UpdateIncumbent":
             pass
         elif t == "Result":
@@ -559,7 +561,7 @@ def _i(v):
 def _empty_cfg(D):
     return dict(budget=0, maxiter=0, ktol=0, ntry=0, nfinal=0, accel=False, accelsteps=0,
                 completepoll=False, skippoll=False, locked=False, gnum=0, gmult=0, kcap=0,
-                expand=0, incr=0, stalliters=0, k0=0, pow2=True, funevalstart=0, minrefit=0)
+                expand=0, incr=0, stalliters=0, k0=0, pow2=True, funevalstart=0, minrefit=0, sloppy=True)
 
 
 def _logged_finite(final):
